@@ -83,7 +83,7 @@ def hc_site(frames):
         i = fn.find("/httpcore/")
         if i != -1:
             rel = fn[i + len("/httpcore/"):]
-            if rel.startswith("_synchronization") or rel.startswith("_trace"):
+            if rel.startswith(("_synchronization", "_trace", "_backends/")):
                 if prim is None:
                     prim = name
                 continue
